@@ -255,6 +255,12 @@ func forType(t reflect.Type, seen map[reflect.Type]bool, ignore bool, schemas ma
 		// If skipPath is non-nil, it is path to an anonymous field whose
 		// schema has been replaced by a known schema.
 		var skipPath []int
+		// owners records, per JSON name, the best candidate field seen so far.
+		type nameOwner struct {
+			depth  int
+			tagged bool
+		}
+		owners := make(map[string]nameOwner)
 		for _, field := range reflect.VisibleFields(t) {
 			if s.Properties == nil {
 				s.Properties = make(map[string]*Schema)
@@ -359,6 +365,23 @@ func forType(t reflect.Type, seen map[reflect.Type]bool, ignore bool, schemas ma
 				}
 				fs.Description = tag
 			}
+			// Two fields can have the same JSON name. As in encoding/json, the one at
+			// the smallest embedding depth wins; at equal depth the one whose name
+			// comes from a tag wins, and if that does not decide, neither is a property.
+			tagName, _, _ := strings.Cut(field.Tag.Get("json"), ",")
+			cur := nameOwner{depth: len(field.Index), tagged: tagName != ""}
+			if prev, taken := owners[info.name]; taken {
+				if prev.depth < cur.depth || (prev.depth == cur.depth && prev.tagged && !cur.tagged) {
+					continue
+				}
+				delete(s.Properties, info.name)
+				s.PropertyOrder = slices.DeleteFunc(s.PropertyOrder, func(n string) bool { return n == info.name })
+				s.Required = slices.DeleteFunc(s.Required, func(n string) bool { return n == info.name })
+				if prev.depth == cur.depth && prev.tagged == cur.tagged {
+					continue
+				}
+			}
+			owners[info.name] = cur
 			s.Properties[info.name] = fs
 
 			s.PropertyOrder = append(s.PropertyOrder, info.name)
